@@ -115,6 +115,31 @@ def sites(ctx, fn):
                 A, B = B, A
                 cases = {_SWAP[c] for c in cases}
             out.setdefault(A + ' @@ ' + B, set()).add(','.join(sorted(cases)))
+        # predicates: a closure or function whose result *is* the comparison (`.find(|x| x.name == name)`, `fn is_x() { a < b }`)
+        for bb in sorted(b.reach):
+            cands = []
+            for si, st in enumerate(b.stmts(bb)):
+                if st.get('lhs') == [0] and st.get('rv') and not st.get('x', '').startswith('m:'):
+                    cands.append(b._pexpr_rvalue(st['rv'], 0, frozenset(), (bb, si)))
+            t = b.term(bb)
+            if t.get('t') == 'call' and t.get('dest') == [0] and not t.get('x', '').startswith('m:'):
+                cands.append(b._pexpr_call(bb, t, 0, frozenset(), (bb, 't')) if hasattr(b, '_pexpr_call') else None)
+            for e0 in cands:
+                if e0 is None:
+                    continue
+                e, tr = norm_bool(e0, True)
+                cmp_ = _as_cmp(e)
+                if cmp_ is None:
+                    continue
+                op_, lhs_, rhs_ = cmp_
+                A, B = canon(lhs_, 0, 1), canon(rhs_, 0, 1)
+                cases = set(_CASES[op_])
+                if not tr:
+                    cases = _ALL - cases
+                if B < A:
+                    A, B = B, A
+                    cases = {_SWAP[c] for c in cases}
+                out.setdefault(A + ' @@ ' + B + ' @@ <result>', set()).add(','.join(sorted(cases)))
     return {k: sorted(v) for k, v in out.items()}
 
 
@@ -132,8 +157,7 @@ def collect(ctx):
     return out
 
 
-FLOORS = {'C01': 53, 'C02': 52, 'C03': 74, 'C04': 48, 'C05': 36, 'C06': 44, 'C07': 9, 'C08': 8, 'C09': 49, 'C10': 31, 'C11': 1, 'C12': 47, 'C13': 194, 'C14': 50, 'C15': 22,
-          'C16': 114, 'C17': 42, 'C18': 21, 'C19': 23, 'C20': 29}   # ~70 % of the guards counted on the pinned tree
+FLOORS = {'C01': 62, 'C02': 62, 'C03': 85, 'C04': 54, 'C05': 44, 'C06': 53, 'C07': 9, 'C08': 9, 'C09': 56, 'C10': 38, 'C11': 4, 'C12': 53, 'C13': 197, 'C14': 56, 'C15': 23, 'C16': 134, 'C17': 44, 'C18': 28, 'C19': 31, 'C20': 30}   # ~70 % of the guards counted on the pinned tree
 
 
 def check(ctx, rep, prop):
@@ -152,8 +176,12 @@ def check(ctx, rep, prop):
                 continue
             n += 1
             ok = cur[key] == want
-            a_, b_ = key.split(' @@ ')[0], key.split(' @@ ')[-1]
-            what = ('on `%s`' % a_) if b_ == '<bool>' else ('comparing `%s` with `%s`' % (a_, b_))
-            rep.ob(rid, fn, key[:140], ok, None, None if ok else
-                   '%s, the function now leaves early when {%s} (pinned tree: when {%s})' % (what, ' | '.join(cur[key]), ' | '.join(want)))
+            parts = key.split(' @@ ')
+            a_, b_ = parts[0], parts[1]
+            if parts[-1] == '<result>':
+                msg = 'the predicate comparing `%s` with `%s` now holds when {%s} (pinned tree: when {%s})' % (a_, b_, ' | '.join(cur[key]), ' | '.join(want))
+            else:
+                what = ('on `%s`' % a_) if b_ == '<bool>' else ('comparing `%s` with `%s`' % (a_, b_))
+                msg = '%s, the function now leaves early when {%s} (pinned tree: when {%s})' % (what, ' | '.join(cur[key]), ' | '.join(want))
+            rep.ob(rid, fn, key[:140], ok, None, None if ok else msg)
     return n
